@@ -14,6 +14,7 @@ LEVEL_TEXT = ("Static structural proof of necessary conditions, not of the prope
               "format_error* site in the closure binds to its message function through the decorator wrapper; no "
               "issue list returned inside the validator closure is discarded. Correctness of the rule predicates "
               "themselves (valid => no error; one fault => that code) is NOT decided.")
+LEVEL_EXTRA = 'Added after the seeded evaluation: (R1.4) the delimiter scan decides on the blank-stripped token text; (R1.5) no early exit skips a string-level check.'
 
 
 def signature_rule(ctx, rule, funcs, floor_sites):
